@@ -74,7 +74,7 @@ def alphabets():
         utils.DEBUG = True
         res["pil_parse_seq"] = [c for c in PRINTABLE if c.isalnum() and _accepts(
             lambda: PIL_parser.parse_seq("sequence x = %s : 1" % c))]
-        res["mfe_seq"] = [c for c in PRINTABLE if c.isalpha() and _accepts(
+        res["mfe_seq"] = [c for c in PRINTABLE if _accepts(
             lambda: nupack_out_grammar.seq.parseString(c, parseAll=True))]
         def fixed_ok(c):
             return compiler.parse_fixed("sequence x = %s" % c)[2] == c
